@@ -422,7 +422,13 @@ func scenCrash(rep *Report, tier string, seed int64) {
 			if code != 0 || derr != nil {
 				path := WriteReplay(rep.Property, "crash-fail", Replay{Property: rep.Property, Scenario: "crash", Seed: seed, Setup: s,
 					What: "after " + what + " the daemon does not reach the tip", Detail: []string{out, fmt.Sprint(derr)}, Blocks: ChainJSON(ref.Chain), Extra: map[string]interface{}{"fail_statement": n}})
-				rep.Violate("crash:failed-block-not-retried:"+st.Kind, fmt.Sprintf("%s: %.300s", what, out), path)
+				// (the signature names the call path, as below: a statement failing under
+				// GetPegNetRateAverages makes the daemon panic — C10's known finding, seen from here)
+				sig := "crash:failed-block-not-retried:" + st.Kind
+				if strings.Contains(out, "no recovery from a database error getting rates") {
+					sig = "crash:failed-block-not-retried:" + shortPath(st.Path)
+				}
+				rep.Violate(sig, fmt.Sprintf("%s: %.300s", what, out), path)
 				return
 			}
 			if diff := FirstDiff(dropBackfill(final), dropBackfill(ref.Dumps[int64(tip)])); diff != "" {
